@@ -50,7 +50,7 @@ MUTANTS = {
   ("uni-merge-only-second", M, "                    for record in records[1:]:\n                        merged.add_attributes(record.attributes)", "                    for record in records[1:2]:\n                        merged.add_attributes(record.attributes)"),
   ("uni-ignore-kind", M, "                records_by_type[record.get_type()].append(record)", "                records_by_type[None].append(record)"),
   ("uni-drop-bundles", M, "            unified_bundle = bundle.unified()\n            document.add_bundle(unified_bundle)", "            unified_bundle = bundle.unified()"),
-  ("uni-return-self-when-nothing-merged", M, "        document = ProvDocument(self._unified_records())\n", "        if not self.bundles and len(self._unified_records()) == len(self._records):\n            return self\n        document = ProvDocument(self._unified_records())\n"),
+  ("uni-return-self-when-nothing-merged", M, "        document = ProvDocument(\n            namespaces=list(self._namespaces.get_registered_namespaces())\n        )\n", "        if not self.bundles and len(self._unified_records()) == len(self._records):\n            return self\n        document = ProvDocument(\n            namespaces=list(self._namespaces.get_registered_namespaces())\n        )\n"),
   ("uni-swallow-conflict", M, "                        merged.add_attributes(record.attributes)\n", "                        try:\n                            merged.add_attributes(record.attributes)\n                        except ProvException:\n                            pass\n"),
   ("uni-merged-at-last-occurrence", M, "        for record in self._records:\n            if record in merged_records:", "        for record in reversed(self._records):\n            if record in merged_records:"),
   ("uni-bundle-not-unified", M, "            unified_bundle = bundle.unified()\n", "            unified_bundle = ProvBundle(records=bundle.get_records(), identifier=bundle.identifier)\n"),
